@@ -4,6 +4,7 @@
 //! usage: harness <mode> <cases.jsonl> <out.jsonl> <workdir> [args...]
 mod chan_mode;
 mod engine_mode;
+mod model_mode;
 mod raw_mode;
 mod retry_mode;
 mod store_mode;
@@ -19,6 +20,7 @@ fn main() {
     let res = std::panic::catch_unwind(|| match mode {
         "store" => store_mode::main(&args[2], &args[3], &args[4], args.get(5).map(|s| s.as_str()).unwrap_or("mem")),
         "engine" => engine_mode::main(&args[2], &args[3], &args[4], &args[5..]),
+        "model" => model_mode::main(&args[2], &args[3], &args[4], &args[5..]),
         "chan" => chan_mode::main(&args[2], &args[3], &args[4], &args[5..]),
         "raw" => raw_mode::main(&args[2], &args[3], &args[4], &args[5..]),
         "retry" => retry_mode::main(&args[2], &args[3], &args[4], args.get(5).map(|s| s.as_str()).unwrap_or("mem")),
